@@ -83,8 +83,11 @@ def build(config, tier):
             cond = " && ".join(eq(lane("r", i), lane("x4", i), t) for i in range(n))
             clauses.append(("%s::from_vec4" % N, "let x4 = mk::<%s>(); let r = %s::from_vec4(x4);" % (X, N), cond))
         # From / TryFrom impls in this file
-        for m in re.finditer(r"^impl (Try)?From<(.+)> for (.+) \{$", src, re.M):
-            tr, X, Y = m.group(1), m.group(2), m.group(3)
+        scalar_math = "scalar-math" in core.CONFIGS[config]["features"]
+        for m in re.finditer(r"^(#\[cfg\((not\()?feature = \"scalar-math\"\)?\)\]\n)?impl (Try)?From<(.+)> for (.+) \{$", src, re.M):
+            if m.group(1) and (scalar_math == bool(m.group(2))):
+                continue  # impl compiled out in this configuration (#[cfg(feature = "scalar-math")] / not(..))
+            tr, X, Y = m.group(3), m.group(4), m.group(5)
             label = "%sFrom<%s> for %s" % (tr or "", X, Y)
             if Y in ELEM and X in ELEM and ELEM[X][1] == ELEM[Y][1]:
                 tx, nx = ELEM[X]
